@@ -113,7 +113,10 @@ class StatsMiddleware(Middleware):
         try:
             resp = next()
             resp_status = repr(getattr(resp, 'status_code', resp.__class__.__name__))
-            resp_mime_type = resp.content_type.partition(';')[0]
+            # not every response has a content_type attribute (HTTPExceptions
+            # returned by endpoints or by the catch-all route do not)
+            resp_headers = getattr(resp, 'headers', None) or {}
+            resp_mime_type = resp_headers.get('Content-Type', '').partition(';')[0]
         except Exception as e:
             # see Werkzeug #388
             resp_status = repr(getattr(e, 'code', e.__class__.__name__))
